@@ -60,19 +60,27 @@ class Gen:
             return TConst('list', self.gen_type(size - 1))
         return TConst('prod', self.gen_type(size - 1), self.gen_type(size - 1))
 
+    def small_type(self):
+        from kernel.type import TConst, STVar
+        r = self.rng
+        return r.choice([TConst('bool'), TConst('bool'), TConst('nat'), TConst('fun', TConst('nat'), TConst('bool')),
+                         STVar('a')])
+
     def gen_term(self, size, depth=0):
         from kernel.term import SVar, Var, Const, Comb, Abs, Bound
         r = self.rng
         c = r.random()
         if size <= 1 or c < 0.3:
             k = r.random()
-            if k < 0.25:
-                return Var(r.choice(['a', 'b', 'x']), self.gen_type(2))
-            if k < 0.4:
-                return SVar(r.choice(['a', 'x', 'P']), self.gen_type(2))
-            if k < 0.7:
-                return Const(r.choice(NAMES), self.gen_type(2))
-            return Bound(r.randint(0, 2))
+            # few names and few types, shared between Var and SVar, so that clashes of name / kind / type
+            # (the interesting cases for abstraction, occurrence tests and substitution) are frequent
+            if k < 0.3:
+                return Var(r.choice(['x', 'y']), self.small_type())
+            if k < 0.55:
+                return SVar(r.choice(['x', 'y']), self.small_type())
+            if k < 0.8:
+                return Const(r.choice(NAMES), self.small_type() if r.random() < 0.5 else self.gen_type(2))
+            return Bound(r.randint(-1, 2))
         if c < 0.75:
             return Comb(self.gen_term(size - 1, depth), self.gen_term(size - 1, depth))
         return Abs(r.choice(['x', 'y']), self.gen_type(2), self.gen_term(size - 1, depth + 1))
